@@ -179,6 +179,12 @@ def rule_key_table(ctx, crate, rule="R-KEY-TABLE"):
     sl = b.slice_args(uo[0], [1], through_calls=False)
     ctx.check(any(c.bb == pos_calls[0].bb for c in sl.calls), rule, "len-defaults-to-pos", b.name, uo[0].loc(),
               "len = state.len().unwrap_or(pos)", "a missing length does not render as the position", cfg)
+    # ... the same position for every placeholder of the frame: pos is sampled once per draw, not once per template part
+    # (otherwise `{pos}/{len}` of a bar without a length can show two different numbers in one line)
+    for c, what in ((pos_calls[0], "position"), (uo[0], "length default")):
+        ctx.check(not b.in_loop(c.bb), rule, "sampled-once-per-frame:%s" % what.split()[0], b.name, c.loc(),
+                  "the %s is read once per frame, before the loop over the template parts" % what,
+                  "the %s is re-read for every placeholder: an update between two placeholders makes one frame show two different positions (and `{len}` of an unknown length differ from `{pos}`)" % what, cfg)
     # ... and a known length renders as itself: "equal the getters"
     ident = True
     why = ""
